@@ -60,7 +60,17 @@ def run(ctx: Context) -> None:
             # tests made after the head was received decide the wrap; one that is not about status / method (the kind of stream, a flag ...) makes the wrap conditional on
             # something else: the bytes h11 consumed past the head are then not handed over in that case
             head_line = min([n.lineno for n in own_nodes(f11.node) if isinstance(n, ast.Assign) and "trailing_data" in norm(n.targets[0])] or [0])
-            extra = [norm(getattr(t, "_orig", t)) for t, _ in guards_of(c) if "status" not in norm(t) and getattr(getattr(t, "_orig", t), "lineno", 0) > head_line > 0]
+            extra = []
+            for t, _ in guards_of(c):
+                t0 = getattr(t, "_orig", t)
+                if "status" in norm(t) or not (getattr(t0, "lineno", 0) > head_line > 0):
+                    continue
+                # the other branch of that test may hand the bytes over in its own way (prepend them to a stream that already is a wrapper): it must use them
+                ifn = parent(t0)
+                other = (ifn.orelse if any(x is c for b in ifn.body for x in ast.walk(b)) else ifn.body) if isinstance(ifn, ast.If) and ifn.test is t0 else []
+                if other and any(isinstance(x, ast.Name) and x.id == "trailing_data" and isinstance(x.ctx, ast.Load) for b in other for x in ast.walk(b)):
+                    continue
+                extra.append(norm(t0))
             for status in (100, 101, 102, 199, 200, 204, 299, 300, 404):
                 for method in (b"CONNECT", b"GET"):
                     want = status == 101 or (method == b"CONNECT" and 200 <= status <= 299)
